@@ -24,7 +24,8 @@ def run(rep, repo, tier):
         'k < argc (blank line tolerated), compares the first token with each table entry up to the sentinel, invokes the '
         'handler of exactly the matching entry as func(argc - d, argv + d) and answers ENOENT otherwise; path helpers: '
         'closed-form results of is_single_dot/is_double_dot/is_abs, next/iterate return a pointer into the string or NULL '
-        'only for an empty string, no NULL result is dereferenced, compare_node returns -1/0/1 with 0 only when both nodes '
+        'only for an empty string and that pointer is at the start of a component or at the end (never on a separator or on '
+        'a "." component), no NULL result is dereferenced, compare_node returns -1/0/1 with 0 only when both nodes '
         'end; creader_readline/skip/skipws keep strt <= cursor <= fini and return a length inside the text. '
         'Not decided: functional equality of split/join/trim/replace/path helpers with a reference (token contents), '
         'treatment of embedded NULs by the strchr-based splitters.')
@@ -469,12 +470,17 @@ def run_path(rep, repo):
     run.run(F('path_is_simple'), FnSpec(setup=cstr_args(0), post=[
         dict(name='empty-is-simple', when=['len_arg0 == 0'], then=['ret == 1'])]))
     run.run(F('path_skip_slashes_and_single_dots'), FnSpec(setup=cstr_args(0, inside=(0,)), post=[
-        dict(name='result-inside-path', then=inside + ['ret_off >= pos_arg0'])]))
+        dict(name='result-inside-path', then=inside + ['ret_off >= pos_arg0']),
+        dict(name='result-is-not-a-separator', then=['ret_ch != 47']),
+        dict(name='result-is-not-a-single-dot-component', when=['ret_ch == 46'], then=['ret_ch1 != 47', 'ret_ch1 != 0'])]))
     it.store_hook = out_store_hook(run, 1, 'plen')
     run.run(F('path_next'), FnSpec(setup=chain(cstr_args(0), fixed_args((1, 4))), post=[
         dict(name='empty-path-has-no-element', when=['len_arg0 == 0'], then=['ret_null == 1']),
         dict(name='element-inside-path', when=['ret_null == 0'],
              then=['ret_in_arg0 == 1', 'ret_off >= 0', 'ret_off + 1 <= len_arg0']),
+        dict(name='element-is-not-a-separator', when=['ret_null == 0'], then=['ret_ch != 47']),
+        dict(name='element-is-not-a-single-dot-component', when=['ret_null == 0', 'ret_ch == 46'],
+             then=['ret_ch1 != 47', 'ret_ch1 != 0']),
         dict(name='element-length-inside-path', when=['ret_null == 0'],
              then=['ghost_plen >= 0', 'ret_off + ghost_plen <= len_arg0'])]))
     it.store_hook = None
@@ -485,7 +491,12 @@ def run_path(rep, repo):
         dict(name='null-path-has-no-element', then=['ret_null == 1'])]))
     run.run(F('path_iterate'), FnSpec(setup=cstr_args(0, inside=(0,)), post=[
         dict(name='empty-path-ends-iteration', when=['pos_arg0 == len_arg0'], then=['ret_null == 1']),
-        dict(name='result-inside-path', when=['pos_arg0 < len_arg0'], then=inside + ['ret_off >= pos_arg0'])]))
+        dict(name='result-inside-path', when=['pos_arg0 < len_arg0'], then=inside + ['ret_off >= pos_arg0']),
+        # the component-wise reference: the result is the start of the next component or the end of the path - never a
+        # separator and never a "." component (a dot followed by a separator or by the end)
+        dict(name='result-is-not-a-separator', when=['pos_arg0 < len_arg0'], then=['ret_ch != 47']),
+        dict(name='result-is-not-a-single-dot-component', when=['pos_arg0 < len_arg0', 'ret_ch == 46'],
+             then=['ret_ch1 != 47', 'ret_ch1 != 0'])]))
     run.run(F('path_iterate'), FnSpec(setup=null_args(0), post=[
         dict(name='null-path-ends-iteration', then=['ret_null == 1'])]))
     run.run(F('path_last_node'), FnSpec(setup=cstr_args(0), post=[
